@@ -706,7 +706,9 @@ func (g *gen) shareStmt(lvl int) string {
 	e := g.fresh("err")
 	switch g.t.Draw(7) {
 	case 6: // a Go builtin module function with internal look-ups
-		return in + "log(string(import(\"time\").LoadLocation(" + []string{"\"UTC\"", "\"\"", "\"Local\""}[g.t.Draw(3)] + ")))\n"
+		zone := []string{"\"UTC\"", "\"\"", "\"Local\"", fmt.Sprintf("\"Etc/GMT+%d\"", 1+g.t.Draw(12)), fmt.Sprintf("\"Etc/GMT-%d\"", 1+g.t.Draw(14))}[g.t.Draw(5)]
+		e := g.fresh("err")
+		return in + "try {\n" + in + "\tlog(string(import(\"time\").LoadLocation(" + zone + ")))\n" + in + "} catch " + e + " {\n" + in + "\tlog(\"no such zone\")\n" + in + "}\n"
 	case 5: // a runtime error built from a process-wide sentinel (ZeroDivisionError): deriving a new error from it must not touch the sentinel
 		e2 := g.fresh("err")
 		return in + "try {\n" + in + "\tlog(7 / (len(WID) - len(WID)))\n" + in + "} catch " + e + " {\n" + in + "\tlog(" + e + ".New(WID + \"-derived\").Message, " + e + ".Message)\n" + in + "}\n" +
